@@ -43,7 +43,6 @@ LISTS = {
     "unsafe-producers": {
         "slice::from_raw_parts*": lambda f: f["name"] in ("from_raw_parts", "from_raw_parts_mut"),
         "set_len": lambda f: f["name"] == "set_len",
-        "transmute": lambda f: f["name"] == "transmute",
         "ptr::read*": lambda f: f["def"].startswith("std::ptr::read") or f["def"].startswith("core::ptr::read"),
         "ptr::write*": lambda f: f["def"].startswith("std::ptr::write") or f["def"].startswith("core::ptr::write"),
         "zeroed": lambda f: f["name"] in ("zeroed", "uninitialized"),
